@@ -568,6 +568,9 @@ func c20Reg(rng *Rng) string {
 	if rng.Chance(15) {
 		return "R255"
 	}
+	if rng.Chance(25) { // the upper part of the register file (R32..R254: unknown to the table before its repair)
+		return fmt.Sprintf("R%d", rng.Pick(32, 254, rng.Range(32, 254)))
+	}
 	return fmt.Sprintf("R%d", rng.Intn(32))
 }
 
@@ -808,8 +811,8 @@ func c20InstCase(r *Run, rng *Rng) {
 		switch rng.Intn(7) {
 		case 0: // truncate
 			toks = toks[:rng.Intn(len(toks))]
-		case 1: // unknown register
-			toks[rng.Intn(len(toks))] = fmt.Sprintf("R%d", rng.Range(32, 254))
+		case 1: // unknown register (SASS has R0..R254 and R255)
+			toks[rng.Intn(len(toks))] = fmt.Sprintf("R%d", rng.Pick(256, 300, 1000, rng.Range(256, 99999)))
 		case 2: // junk number
 			toks[rng.Intn(len(toks))] = []string{"zz", "12ab", "-7", "+3", "99999999999", "ffffffffffffffffff", "0x10", "-", "7fffffffffffffff", "9223372036854775808"}[rng.Intn(10)]
 		case 3: // drop a token
